@@ -175,9 +175,12 @@ def load_known(prop):
     return [f for f in json.load(open(p)).get("findings", []) if f["property"] == prop]
 
 
+REPLAY_MODE = False
+
+
 def write_replay(prop, seed, n, body):
     os.makedirs(os.path.join(VERIF, "out"), exist_ok=True)
-    path = os.path.join(VERIF, "out", "%s-%s-%d.replay" % (prop, seed, n))
+    path = os.path.join(VERIF, "out", "%s-%s-%d.replay%s" % (prop, seed, n, ".again" if REPLAY_MODE else ""))
     with open(path, "w") as fh:
         json.dump(body, fh, indent=1)
     return path
@@ -189,6 +192,8 @@ def main(argv):
     prop = argv[0]
     tier = os.environ.get("VERIF_TIER") or (argv[1] if len(argv) > 1 and not argv[1].startswith("--") else "quick")
     replay = argv[argv.index("--replay") + 1] if "--replay" in argv else None
+    global REPLAY_MODE
+    REPLAY_MODE = replay is not None
     seed = int(os.environ.get("VERIF_SEED", "1"))
     cfg = propcfg.PROPS[prop]
     t0 = time.time()
